@@ -134,9 +134,32 @@ static MeshCase genMesh(Rng& r, Ctx& c)
     else if (mc.kind == MK_STD_FROM_TURBO)
     {
       mc.turboTwin.reset(MeshETurbo::create(nx, dx, x0, angles, mc.polarized, false));
-      auto* ms = new MeshEStandard();
-      mc.mesh.reset(ms);
-      if (ms->resetFromTurbo(*mc.turboTwin, false) != 0) throw SkipCase{"resetFromTurbo-failed"};
+      // MeshEStandard::resetFromTurbo on a fresh object (public API). Oracle: the copy describes the same mesh.
+      {
+        std::unique_ptr<MeshEStandard> ms(new MeshEStandard());
+        bool ok = false;
+        std::string what;
+        try
+        {
+          ok = ms->resetFromTurbo(*mc.turboTwin, false) == 0;
+          ok = ok && ms->getNDim() == ndim && ms->getNApices() == mc.turboTwin->getNApices() &&
+               ms->getNMeshes() == mc.turboTwin->getNMeshes() && ms->getNApexPerMesh() == ndim + 1;
+          if (!ok) what = fmt("ndim=%d napices=%d nmeshes=%d (turbo: %d %d %d)", ms->getNDim(), ms->getNApices(), ms->getNMeshes(), ndim,
+                              mc.turboTwin->getNApices(), mc.turboTwin->getNMeshes());
+        }
+        catch (const std::exception& e) { what = e.what(); }
+        c.truth("resetFromTurbo", "C15:MeshEStandard::resetFromTurbo:ndim-not-set", ok, what);
+        if (ok) mc.mesh = std::move(ms);
+        else
+        { // fall back on createFromExternal with the turbo's apices / meshes read through its getters
+          int nv = mc.turboTwin->getNApices(), ne = mc.turboTwin->getNMeshes();
+          MatrixRectangular apices(nv, ndim);
+          MatrixInt meshes(ne, ndim + 1);
+          for (int i = 0; i < nv; i++) for (int d = 0; d < ndim; d++) apices.setValue(i, d, mc.turboTwin->getApexCoor(i, d));
+          for (int e = 0; e < ne; e++) for (int k = 0; k <= ndim; k++) meshes.setValue(e, k, mc.turboTwin->getApex(e, k));
+          mc.mesh.reset(MeshEStandard::createFromExternal(apices, meshes, false));
+        }
+      }
     }
     else
     {
@@ -352,6 +375,300 @@ static double ratioVec(const std::vector<double>& got, const std::vector<LD>& wa
   return mr;
 }
 
+// backward-error style residual ratio: ||A x - b||_inf / (cfac eps ||(|A||x| + |b|)||_inf)
+static double residRatio(const Sp& A, const std::vector<double>& x, const std::vector<double>& b, double cfac, double* relres = nullptr)
+{
+  int n = (int)x.size();
+  std::vector<LD> xl = toLD(x), xa(n);
+  for (int i = 0; i < n; i++) { if (!std::isfinite(x[i])) return INFINITY; xa[i] = std::fabs(xl[i]); }
+  std::vector<LD> res = mulv(A, xl), mag = mulv(A, xa, false, true);
+  LD bn = 0, rn = 0, b2 = 0, r2 = 0;
+  for (int i = 0; i < n; i++)
+  {
+    LD ri = res[i] - (LD)b[i];
+    rn = std::max(rn, std::fabs(ri));
+    bn = std::max(bn, mag[i] + std::fabs((LD)b[i]));
+    r2 += ri * ri; b2 += (LD)b[i] * (LD)b[i];
+  }
+  if (relres) *relres = (double)(std::sqrt(r2) / (std::sqrt(b2) + 1e-300L));
+  return (double)(rn / (cfac * EPS * bn + 1e-300L));
+}
+
+// ---------------------------------------------------------------------------------------------
+// oracle (c): projection matrix
+// ---------------------------------------------------------------------------------------------
+enum PClass { PC_INSIDE = 0, PC_FACET, PC_VERTEX, PC_HULL, PC_OUT_NEAR, PC_OUT_FAR, PC_AMBIG, NPC };
+static const char* PCN[] = {"inside", "interior-facet", "vertex", "hull", "outside-near", "outside-far", "ambiguous"};
+
+struct Located
+{
+  bool insideStrict = false; // some element has all barycentric coordinates >= +margin
+  bool outsideClear = false; // every element has a barycentric coordinate <= -margin
+  int elem = -1;
+};
+// brute force point location over all elements (long double barycentric coordinates)
+static Located locate(const MeshMirror& mm, const std::vector<double>& p, double margin)
+{
+  Located L;
+  L.outsideClear = true;
+  for (int e = 0; e < mm.ne; e++)
+  {
+    // cheap bounding-box rejection (with slack)
+    bool far = false;
+    for (int d = 0; d < mm.ndim && !far; d++)
+    {
+      double lo = INFINITY, hi = -INFINITY;
+      for (int k = 0; k < mm.nc; k++) { lo = std::min(lo, mm.x(mm.apex(e, k), d)); hi = std::max(hi, mm.x(mm.apex(e, k), d)); }
+      double sl = 0.5 * (hi - lo) + 1e-300;
+      if (p[d] < lo - sl || p[d] > hi + sl) far = true;
+    }
+    if (far) continue; // a point that far from the element's box has a barycentric coordinate <= -0.5 < -margin
+    std::vector<LD> w = barycentric(mm, e, p);
+    LD mn = INFINITY;
+    for (LD v : w) mn = std::min(mn, v);
+    if (!(mn <= -margin)) L.outsideClear = false;
+    if (mn >= margin) { L.insideStrict = true; L.elem = e; }
+  }
+  return L;
+}
+
+struct ProjData
+{
+  std::vector<std::vector<double>> pts;
+  std::vector<int> pclass;
+  std::vector<int> active, zdef;
+};
+
+static void checkProjection(Rng& r, Ctx& c, const MeshCase& mc, const AMesh* mesh, const MeshMirror& mm, const std::string& mcls,
+                            const AMesh* twin)
+{
+  const int ndim = mm.ndim, nc = mm.nc;
+  // element quality and conditioning of the barycentric computation
+  double qual = 1;
+  std::vector<double> lo(ndim, INFINITY), hi(ndim, -INFINITY);
+  for (int i = 0; i < mm.nv; i++) for (int d = 0; d < ndim; d++) { lo[d] = std::min(lo[d], mm.x(i, d)); hi[d] = std::max(hi[d], mm.x(i, d)); }
+  double L = 0;
+  for (int d = 0; d < ndim; d++) L = std::max(L, hi[d] - lo[d]);
+  for (int e = 0; e < mm.ne; e++)
+  {
+    double hm = 0;
+    for (int k = 0; k < nc; k++) for (int l = k + 1; l < nc; l++)
+    {
+      double s2 = 0;
+      for (int d = 0; d < ndim; d++) s2 += std::pow(mm.x(mm.apex(e, k), d) - mm.x(mm.apex(e, l), d), 2);
+      hm = std::max(hm, std::sqrt(s2));
+    }
+    double det = std::fabs((double)elemDet(mm, e));
+    if (det > 0) qual = std::max(qual, std::pow(hm, ndim) / det);
+  }
+  const double tolW = 256. * EPS * qual * (mm.coordMag / mm.hmin + 1.);
+  const double MARGIN = 1e-3;
+
+  // facets: interior (shared by two elements) and hull (one element)
+  std::map<std::vector<int>, int> facetCount;
+  for (int e = 0; e < mm.ne; e++)
+    for (int k = 0; k < nc; k++)
+    {
+      std::vector<int> f;
+      for (int l = 0; l < nc; l++) if (l != k) f.push_back(mm.apex(e, l));
+      std::sort(f.begin(), f.end());
+      facetCount[f]++;
+    }
+  std::vector<std::vector<int>> facIn, facHull;
+  for (auto& kv : facetCount) (kv.second >= 2 ? facIn : facHull).push_back(kv.first);
+  std::vector<char> vertexOnHull(mm.nv, 0);
+  for (auto& f : facHull) for (int v : f) vertexOnHull[v] = 1;
+
+  ProjData pd;
+  auto addPoint = [&](int wantClass) {
+    std::vector<double> p(ndim, 0.);
+    int cls = wantClass;
+    if (wantClass == PC_INSIDE)
+    {
+      int e = r.irange(0, mm.ne - 1);
+      std::vector<double> w(nc);
+      double sw = 0;
+      for (auto& v : w) { v = 0.03 + r.u01(); sw += v; }
+      for (int k = 0; k < nc; k++) for (int d = 0; d < ndim; d++) p[d] += w[k] / sw * mm.x(mm.apex(e, k), d);
+    }
+    else if (wantClass == PC_FACET || wantClass == PC_HULL)
+    {
+      auto& fl = wantClass == PC_FACET ? facIn : facHull;
+      if (fl.empty()) return;
+      const std::vector<int>& f = fl[r.next() % fl.size()];
+      std::vector<double> w(f.size());
+      double sw = 0;
+      for (auto& v : w) { v = 0.05 + r.u01(); sw += v; }
+      for (size_t k = 0; k < f.size(); k++) for (int d = 0; d < ndim; d++) p[d] += w[k] / sw * mm.x(f[k], d);
+    }
+    else if (wantClass == PC_VERTEX)
+    {
+      int v = r.irange(0, mm.nv - 1);
+      for (int d = 0; d < ndim; d++) p[d] = mm.x(v, d);
+      cls = vertexOnHull[v] ? PC_HULL : PC_VERTEX;
+    }
+    else if (wantClass == PC_OUT_NEAR)
+    { // random point in the bounding box enlarged by 15 %: classified by brute force
+      for (int d = 0; d < ndim; d++) p[d] = r.uni(lo[d] - 0.15 * L, hi[d] + 0.15 * L);
+      Located Lc = locate(mm, p, MARGIN);
+      cls = Lc.insideStrict ? PC_INSIDE : Lc.outsideClear ? PC_OUT_NEAR : PC_AMBIG;
+    }
+    else if (wantClass == PC_OUT_FAR)
+    {
+      int d0 = r.irange(0, ndim - 1);
+      for (int d = 0; d < ndim; d++) p[d] = r.uni(lo[d], hi[d]);
+      p[d0] = r.coin() ? hi[d0] + L * r.loguni(0.3, 30.) : lo[d0] - L * r.loguni(0.3, 30.);
+    }
+    pd.pts.push_back(p);
+    pd.pclass.push_back(cls);
+  };
+  // first half: no sample outside the bounding box of the mesh; second half: all classes mixed
+  int nhalf = c.thorough() ? 40 : 20;
+  for (int k = 0; k < nhalf; k++)
+  {
+    double u = r.u01();
+    addPoint(u < 0.45 ? PC_INSIDE : u < 0.65 ? PC_FACET : u < 0.75 ? PC_VERTEX : u < 0.85 ? PC_HULL : PC_INSIDE);
+  }
+  int firstMixed = (int)pd.pts.size();
+  for (int k = 0; k < nhalf; k++)
+  {
+    double u = r.u01();
+    addPoint(u < 0.35 ? PC_INSIDE : u < 0.45 ? PC_FACET : u < 0.75 ? PC_OUT_NEAR : PC_OUT_FAR);
+  }
+  if (r.coin(0.5)) addPoint(r.coin() ? PC_OUT_FAR : PC_INSIDE); // what the last sample is matters for the matrix shape
+  int np = (int)pd.pts.size();
+  // Db: coordinates + one Z variable; optional selection; optional undefined Z (then rankZ = 0 filters them)
+  bool useSel = r.coin(0.3), useZ = r.coin(0.4);
+  pd.active.assign(np, 1);
+  pd.zdef.assign(np, 1);
+  VectorDouble tab((ndim + 1) * np);
+  for (int i = 0; i < np; i++)
+  {
+    for (int d = 0; d < ndim; d++) tab[d * np + i] = pd.pts[i][d];
+    if (useSel && r.coin(0.2)) pd.active[i] = 0;
+    if (useZ && r.coin(0.2)) pd.zdef[i] = 0;
+    tab[ndim * np + i] = pd.zdef[i] ? r.normal() : TEST;
+  }
+  VectorString names, locs;
+  for (int d = 0; d < ndim; d++) { names.push_back(fmt("x%d", d + 1)); locs.push_back(fmt("x%d", d + 1)); }
+  names.push_back("z");
+  locs.push_back("z1");
+  std::unique_ptr<Db> db(Db::createFromSamples(np, ELoadBy::COLUMN, tab, names, locs, true));
+  if (!db) { c.truth("proj-db", "C15:harness:db-null", false); return; }
+  if (useSel)
+  {
+    VectorDouble sel(np);
+    for (int i = 0; i < np; i++) sel[i] = pd.active[i];
+    db->addSelection(sel, "sel");
+  }
+  int rankZ = useZ ? 0 : -1;
+  std::vector<int> rowOf(np, -1);
+  int nrows = 0;
+  for (int i = 0; i < np; i++)
+    if (pd.active[i] && (rankZ < 0 || pd.zdef[i])) rowOf[i] = nrows++;
+
+  std::unique_ptr<ProjMatrix> pm(ProjMatrix::create(db.get(), mesh, rankZ, false));
+  std::string kb = "C15:ProjMatrix:" + mcls;
+  // shape: "a point outside has an empty row" => one row per retained sample, one column per apex
+  bool lastOut = false;
+  for (int i = np - 1; i >= 0; i--) if (rowOf[i] >= 0) { lastOut = pd.pclass[i] == PC_OUT_FAR || pd.pclass[i] == PC_OUT_NEAR; break; }
+  bool shapeOk = pm->getPointNumber() == nrows && pm->getApexNumber() == mm.nv;
+  c.truth("proj-shape", kb + (lastOut ? ":shape:last-sample-outside" : ":shape"), shapeOk,
+          fmt("rows=%d expected=%d cols=%d expected=%d", pm->getPointNumber(), nrows, pm->getApexNumber(), mm.nv));
+  Sp A = mirror(pm.get());
+  std::vector<std::vector<std::pair<int, double>>> rows(std::max(nrows, A.nr));
+  for (size_t k = 0; k < A.v.size(); k++) rows[A.r[k]].push_back({A.c[k], A.v[k]});
+
+  // random affine function in normalised coordinates
+  double a0 = r.uni(-1, 1), a[3] = {r.uni(-1, 1), r.uni(-1, 1), r.uni(-1, 1)}, asum = std::fabs(a0);
+  for (int d = 0; d < ndim; d++) asum += std::fabs(a[d]);
+  auto aff = [&](auto getx) { LD v = a0; for (int d = 0; d < ndim; d++) v += (LD)a[d] * ((LD)getx(d) - (LD)(0.5 * (lo[d] + hi[d]))) / (LD)L; return v; };
+  const double tolA = 4 * tolW * (1 + asum) + 64 * EPS * (mm.coordMag / L + 1) * asum;
+
+  bool sawOutsideBox = false; // an earlier retained sample lies outside the bounding box of the mesh
+  for (int i = 0; i < np; i++)
+  {
+    int row = rowOf[i];
+    if (row < 0) continue;
+    int pc = pd.pclass[i];
+    std::string kshift = (sawOutsideBox && (mc.kind == MK_TURBO || mc.kind == MK_TURBO_MASK)) ? ":after-sample-outside-grid" : "";
+    if (pc == PC_OUT_FAR) sawOutsideBox = true;
+    if (pc == PC_OUT_NEAR)
+      for (int d = 0; d < ndim; d++) if (pd.pts[i][d] < lo[d] || pd.pts[i][d] > hi[d]) sawOutsideBox = true;
+    if (pc == PC_AMBIG) { c.skip("proj:ambiguous-point"); continue; }
+    const auto& rw = row < (int)rows.size() ? rows[row] : std::vector<std::pair<int, double>>();
+    std::string kc = kb + ":" + PCN[pc] + kshift;
+    if (pc == PC_OUT_FAR || pc == PC_OUT_NEAR)
+    {
+      c.truth("proj-outside-empty", kc + ":row-not-empty", rw.empty(), fmt("sample %d row %d has %zu entries", i, row, rw.size()));
+      continue;
+    }
+    bool mustExist = pc != PC_HULL; // on the hull the property does not decide; validity is checked if a row exists
+    if (rw.empty())
+    {
+      if (mustExist) c.truth("proj-inside-nonempty", kc + ":row-empty", false, fmt("sample %d row %d p=%s", i, row, jvec(pd.pts[i]).c_str()));
+      else c.probe("proj.hull.empty");
+      continue;
+    }
+    if (mustExist) c.truth("proj-inside-nonempty", kc + ":row-empty", true);
+    LD sw = 0, sa = 0, wmin = INFINITY;
+    bool idxOk = true;
+    for (auto& cw : rw)
+    {
+      if (cw.first < 0 || cw.first >= mm.nv) { idxOk = false; continue; }
+      sw += cw.second;
+      wmin = std::min(wmin, (LD)cw.second);
+      int v = cw.first;
+      sa += (LD)cw.second * aff([&](int d) { return mm.x(v, d); });
+    }
+    LD want = aff([&](int d) { return pd.pts[i][d]; });
+    double tw = tolW, ta = tolA;
+    if (pc == PC_HULL) { tw = std::max(tw, 2e-5); ta = std::max(ta, 2e-5 * (1 + asum) * (mm.hmax / L + 1)); } // library acceptance eps (EPSILON5 / EPSILON6)
+    c.truth("proj-count", kc + ":too-many-entries", idxOk && (int)rw.size() <= nc, fmt("%zu entries", rw.size()));
+    c.check("proj-nonneg", kc + ":negative-weight", wmin >= -tw, (double)std::max((LD)0, -wmin), tw, fmt("sample %d wmin=%.3g", i, (double)wmin));
+    c.check("proj-sum1", kc + ":sum-not-1", std::fabs((double)(sw - 1)) <= tw, std::fabs((double)(sw - 1)), tw, fmt("sample %d", i));
+    c.check("proj-affine", kc + ":affine-not-reproduced", std::fabs((double)(sa - want)) <= ta, std::fabs((double)(sa - want)), ta,
+            fmt("sample %d got=%.15g want=%.15g p=%s", i, (double)sa, (double)want, jvec(pd.pts[i]).c_str()));
+  }
+
+  // the projection as an operator: mesh2point / point2mesh vs own products
+  if (shapeOk && nrows > 0)
+  {
+    std::vector<double> u(mm.nv), v(nrows);
+    for (auto& t : u) t = r.normal();
+    for (auto& t : v) t = r.normal();
+    std::vector<LD> wantP = mulv(A, toLD(u)), boundP = mulv(A, toLD(u), false, true);
+    std::vector<LD> ua(mm.nv), va(nrows);
+    for (int i = 0; i < mm.nv; i++) ua[i] = std::fabs(u[i]);
+    for (int i = 0; i < nrows; i++) va[i] = std::fabs(v[i]);
+    boundP = mulv(A, ua, false, true);
+    std::vector<LD> wantM = mulv(A, toLD(v), true), boundM = mulv(A, va, true, true);
+    VectorDouble out;
+    int e1 = pm->mesh2point(VD(u), out);
+    double q = e1 ? INFINITY : ratioVec(SV(out), wantP, boundP, 16);
+    c.check("proj-mesh2point", kb + ":mesh2point", q <= 1, q, 1, fmt("err=%d", e1));
+    int e2 = pm->point2mesh(VD(v), out);
+    q = e2 ? INFINITY : ratioVec(SV(out), wantM, boundM, 16);
+    c.check("proj-point2mesh", kb + ":point2mesh", q <= 1, q, 1, fmt("err=%d", e2));
+    // same geometry described by the twin class (turbo <-> standard): interpolated values agree at strictly inside points
+    if (twin != nullptr)
+    {
+      std::unique_ptr<ProjMatrix> pt(ProjMatrix::create(db.get(), twin, rankZ, false));
+      VectorDouble o1, o2;
+      if (pt->getPointNumber() == nrows && pt->getApexNumber() == mm.nv && pm->mesh2point(VD(u), o1) == 0 && pt->mesh2point(VD(u), o2) == 0)
+      {
+        double un = 0;
+        for (double t : u) un = std::max(un, std::fabs(t));
+        for (int i = 0; i < firstMixed; i++)
+          if (rowOf[i] >= 0 && pd.pclass[i] == PC_INSIDE)
+            c.close("proj-twin", kb + ":turbo-vs-standard", o1[rowOf[i]], o2[rowOf[i]], 8 * tolW * un);
+      }
+      else
+        c.truth("proj-twin", kb + ":turbo-vs-standard:shape", false);
+    }
+  }
+}
+
 static void run_case(Rng& r, Ctx& c)
 {
   // ---- 1. mesh, model -----------------------------------------------------------------------------
@@ -459,14 +776,19 @@ static void run_case(Rng& r, Ctx& c)
       q = err ? INFINITY : ratioVec(SV(y), yQ, B, CF, &w);
       c.check("matfree-evalDirect", "C15:evalDirect2:matfree-vs-Q:" + kv, q <= 1, q, 1, fmt("err=%d", err));
     }
-    // E3 addToDest accumulates on a non-zero destination
+    if (vk == 0)
+    // E3 addToDest: ALinearOp::addToDest is the accumulating form (evalDirect = fill(0) + addToDest, see ALinearOp.cpp;
+    //    PrecisionOpCs::_addToDest, ProjMatrix::_addMesh2point, SPDEOp::_addToDestImpl all rely on outv += Op * inv)
     {
-      std::vector<double> y(n);
+      std::vector<double> y(n), y0;
       std::vector<LD> want(n), b2(n);
       for (int i = 0; i < n; i++) { y[i] = r.uni(-1, 1) * (double)B[i]; want[i] = (LD)y[i] + yQ[i]; b2[i] = B[i] + std::fabs((LD)y[i]); }
+      y0 = y;
       int err = qmf.addToDest(constvect(x), vect(y));
       q = err ? INFINITY : ratioVec(y, want, b2, CF, &w);
-      c.check("matfree-addToDest", "C15:addToDest:matfree-vs-Q:" + kv, q <= 1, q, 1, fmt("err=%d", err));
+      std::string key = "C15:addToDest:matfree-vs-Q:" + kv;
+      if (!(q <= 1) && ratioVec(y, yQ, B, CF) <= 1) key = "C15:PrecisionOp::addToDest:destination-overwritten"; // diagnosed: y = Qx, y0 lost
+      c.check("matfree-addToDest", key, q <= 1, q, 1, q <= 1 ? "" : fmt("err=%d i=%d y0=%.6g got=%.17g want y0+Qx=%.17g Qx=%.17g", err, w, y0[w], y[w], (double)want[w], (double)yQ[w]));
     }
     // E4 evalPower(ONE) on the matrix-free operator and on the Cs operator (polynomial path of the same object)
     for (int which = 0; which < 2; which++)
@@ -515,6 +837,7 @@ static void run_case(Rng& r, Ctx& c)
   }
   const int NCHOL = c.thorough() ? 320 : 200;
   LD refLogdet = NAN;
+  double condEst = 1; // (max L_ii / min L_ii)^2 of the reference factor: lower bound of cond(Q)
   bool haveDense = n <= NCHOL;
   Mat Qd;
   if (haveDense)
@@ -522,7 +845,13 @@ static void run_case(Rng& r, Ctx& c)
     Qd = dense(Q);
     ref::Chol ch(Qd);
     c.check("Q-posdef-chol", "C15:Q:not-positive-definite:" + cls, ch.ok, ch.ok ? 0 : 1, 0, fmt("min pivot %.6g", (double)ch.minpiv));
-    if (ch.ok) refLogdet = ch.logdet();
+    if (ch.ok)
+    {
+      refLogdet = ch.logdet();
+      LD lmin = INFINITY, lmax = 0;
+      for (int i = 0; i < n; i++) { lmin = std::min(lmin, ch.L(i, i)); lmax = std::max(lmax, ch.L(i, i)); }
+      condEst = (double)((lmax / lmin) * (lmax / lmin));
+    }
   }
   for (int t = 0; t < 4; t++)
   {
@@ -544,27 +873,25 @@ static void run_case(Rng& r, Ctx& c)
     if (err == 0 && fin)
     {
       // backward-stable residual: ||Qx-b||_inf <= c n eps (|Q||x| + |b|)
-      std::vector<LD> xl = toLD(x), res = mulv(Q, xl), mag = mulv(Q, xl, false, true);
-      std::vector<double> xa(n);
-      double q = 0;
-      LD bn = 0, rn = 0;
-      for (int i = 0; i < n; i++) { rn = std::max(rn, std::fabs(res[i] - (LD)b[i])); bn = std::max(bn, mag[i] + std::fabs((LD)b[i])); }
-      q = (double)(rn / (64.0 * n * EPS * bn + 1e-300));
+      double q = residRatio(Q, x, b, 64.0 * n);
       c.check("solve-residual-chol", "C15:CholeskySparse::solve:residual:" + cls, q <= 1, q, 1);
       double ld = chol.computeLogDeterminant();
       if (haveDense && std::isfinite((double)refLogdet))
-        c.close("logdet-chol", "C15:CholeskySparse:logdet:" + cls, ld, (double)refLogdet, 1e-9 * (n + std::fabs((double)refLogdet)));
+        c.close("logdet-chol", "C15:CholeskySparse:logdet:" + cls, ld, (double)refLogdet, 1e-10 * (n + std::fabs((double)refLogdet)) + 64. * n * EPS * condEst);
       double ld2 = qcs.getLogDeterminant();
       c.close("logdet-chol", "C15:PrecisionOpCs:getLogDeterminant:" + cls, ld2, ld, 1e-12 * (n + std::fabs(ld)));
     }
     // PrecisionOpCs::evalInverse (Cholesky path)
     std::vector<double> x2(n, 0.);
     qcs.evalInverse(constvect(b), x2);
-    std::vector<LD> xl = toLD(x2), res = mulv(Q, xl), mag = mulv(Q, xl, false, true);
-    LD bn = 0, rn = 0;
-    for (int i = 0; i < n; i++) { rn = std::max(rn, std::fabs(res[i] - (LD)b[i])); bn = std::max(bn, mag[i] + std::fabs((LD)b[i])); }
-    double q = (double)(rn / (64.0 * n * EPS * bn + 1e-300));
+    double q = residRatio(Q, x2, b, 64.0 * n);
     c.check("solve-residual-chol", "C15:PrecisionOpCs::evalInverse:residual:" + cls, q <= 1, q, 1);
+  }
+
+  // ---- 6. oracle (c): projection of points on the mesh --------------------------------------------
+  {
+    std::string mcls = fmt("%s:ndim=%d", MKN[mc.kind], ndim);
+    checkProjection(r, c, mc, mc.mesh.get(), mm, mcls, mc.turboTwin.get());
   }
 }
 
